@@ -8,7 +8,10 @@ RULE = ("boundary sweep: limit in {0,1,2,10,1023,1024,1025} x pre-existing activ
         "limit, limit+1 bytes} x first build in append/truncate mode x every sequence of 1 and 2 record sizes from "
         "{0,1,2,limit-pre-1,limit-pre,limit-pre+1,limit,limit+1} (quick: 2-sequences sampled for the 1 KiB limits) "
         "x rollers cycling over delete / window(1,2) / window(0,1,.gz) / window(0,0); then random histories of 3-8 "
-        "ops with restarts in both modes, records of multi-byte UTF-8 text split into 1-3 encoder chunks at arbitrary "
+        "ops with restarts in both modes; 250 histories in which appends (sizes around the limit) hit a roller that is "
+        "set to FAIL (Roll::roll returns Err before touching anything) followed by further appends and restarts - the "
+        "reopen after a failed roll must seed len from the file; records made of a small piece followed by one "
+        "encoder write of >= 1 KiB; records of multi-byte UTF-8 text split into 1-3 encoder chunks at arbitrary "
         "byte positions, sizes around the limit and around 1024. Every policy consultation reports "
         "(len_estimate, metadata().len(), rolled). non-trivial = size trigger with at least one append; "
         "distinct = distinct case line")
@@ -24,6 +27,8 @@ def corpus():
         [[0, 5], [1, 1, 2, 0], [1, b"ab"], 1, [[0, [b"123"]], [0, [b"4", b"5"]], [0, [b"6"]]]],
         [[0, 0], [0], [1, b"ab"], 0, [[0, []], [0, [b"1"]]]],
         [[0, 3], [1, 0, 1, 1], [0], 1, [[0, ["€".encode()]], [0, ["é".encode()]], [1, 1], [0, [b"x"]]]],
+        [[0, 3], [1, 0, 1, 0], [0], 1, [[0, [b"12"]], [7, [b"345"]], [0, [b"6"]], [0, [b"7"]]]],
+        [[0, 1500], [1, 0, 1, 0], [1, b"p" * 212], 1, [[0, [b"INFO - ", b"m" * 2006, b"\n"]], [0, [b"x"]]]],
     ]
 
 
@@ -49,6 +54,32 @@ def cases(rng, tier):
                     prev = [0] if pre is None else [1, rc.rec_bytes(rng, "pre", pre)]
                     ops = [rc.op_append(rng, "r%d" % j, s) for j, s in enumerate(seq)]
                     out.append([[0, limit], ROLLERS[n % len(ROLLERS)], prev, a0, ops])
+    # failing roller: an over-limit append whose rotation fails (Err, file kept), then further appends
+    for _ in range(250 if tier == "quick" else 3000):
+        limit = rng.choice([0, 1, 2, 3, 5, 10, 17, 1024])
+        big = limit >= 1000
+        pre_sz = rng.choice([None, 0, 1, max(0, limit - 1) % 1200, limit % 1200, (limit + 1) % 1200])
+        prev = [0] if pre_sz is None else [1, rc.rec_bytes(rng, "pre", pre_sz)]
+        ops = []
+        for j in range(rng.range(2, 4 if big else 7)):
+            k = rng.below(10)
+            if k == 0:
+                ops.append([1, rng.choice([1, 1, 0])])
+                continue
+            if big:
+                sz = rng.choice([0, 1, 500, 1023, 1024, 1025])
+            else:
+                sz = rng.choice([0, 1, 2, max(0, limit - 1), limit, limit + 1, rng.below(12)])
+            ops.append([7 if k < 5 else 0, rc.chunked(rng, rc.rec_bytes(rng, "r%d" % j, sz))])
+        out.append([[0, limit], rng.choice(ROLLERS + [[1, 7, 3, 0], [1, 1, 1, 1]]), prev, rng.choice([1, 1, 0]), ops])
+    # one encoder write of >= 1 KiB preceded by a small piece of the same record
+    for _ in range(40 if tier == "quick" else 400):
+        limit = rng.choice([1023, 1024, 1025, 1500, 3000])
+        ops = []
+        for j in range(rng.range(1, 3)):
+            body = rc.rec_bytes(rng, "b%d" % j, rng.choice([1024, 1025, 1100, 2000]))
+            ops.append([0, [rc.rec_bytes(rng, "h%d" % j, rng.choice([1, 7, 30])), body] + ([b"\n"] if rng.chance(1, 2) else [])])
+        out.append([[0, limit], rng.choice(ROLLERS), [0] if rng.chance(1, 2) else [1, rc.rec_bytes(rng, "pre", 200)], 1, ops])
     n_rand = 400 if tier == "quick" else 6000
     for _ in range(n_rand):
         limit = rng.choice([0, 1, 2, 3, 5, 10, 17, 1023, 1024, 1025, 2 ** 64 - 1])
@@ -71,4 +102,4 @@ def cases(rng, tier):
 
 
 def nontrivial(c):
-    return c[0][0] == 0 and any(o[0] == 0 for o in c[4])
+    return c[0][0] == 0 and any(o[0] in (0, 7) for o in c[4])
